@@ -681,6 +681,8 @@ def _vars_of(t, out: set) -> None:
 def same_terms(a, b, what: str = "") -> bool:
     """Equality of two terms: exact normal form when both are in the decidable class; otherwise a numeric witness can still
     prove them different (agreement at all sample points outside the class stays undecided: ANALYSIS-ERROR)."""
+    if repr(a) == repr(b):
+        return True  # syntactically identical terms
     try:
         return same(normalize(a), normalize(b), what)
     except AnalysisError as e:
